@@ -6,6 +6,23 @@ namespace Spine.Td
 theorem clean_timers : Cfg.clean.timersSurvive = false := rfl
 theorem clean_entAppr : Cfg.clean.entityKeepsApprovals = false := rfl
 theorem clean_reg : Cfg.clean.reg = Reg.Cfg.clean := rfl
+theorem clean_tally : Cfg.clean.tallySurvivesDrop = false := rfl
+
+theorem finish_shape (s : St) (p w : Nat) :
+    (finish s p w).reg = s.reg ∧ (finish s p w).alive = s.alive ∧ (finish s p w).armed.Sublist s.armed :=
+  ⟨rfl, rfl, List.filter_sublist⟩
+
+theorem verdict_shape (s : St) (p w : Nat) (a : Bool) :
+    (verdict s p w a).1.reg = s.reg ∧ (verdict s p w a).1.alive = s.alive ∧ (verdict s p w a).1.armed.Sublist s.armed := by
+  unfold verdict
+  split
+  · exact ⟨rfl, rfl, List.Sublist.refl _⟩
+  · split
+    · unfold approveStep
+      split
+      · exact ⟨rfl, rfl, List.Sublist.refl _⟩
+      · exact finish_shape s p w
+    · exact finish_shape s p w
 
 /-! ### removing a connection -/
 
@@ -17,11 +34,12 @@ theorem drop_exact (s : St) (hs : Reg.Sane s.reg) (p : Nat) (hp : s.alive.contai
     (drop Cfg.clean s p).armed = s.armed.filter (·.peer ≠ p) ∧
     (drop Cfg.clean s p).csubs = s.csubs.filter (·.peer ≠ p) ∧
     (drop Cfg.clean s p).cbinds = s.cbinds.filter (·.peer ≠ p) ∧
-    (drop Cfg.clean s p).alive = s.alive.filter (· ≠ p) := by
+    (drop Cfg.clean s p).alive = s.alive.filter (· ≠ p) ∧
+    (drop Cfg.clean s p).tally = s.tally.filter (·.1 ≠ p) := by
   have h := Reg.c10_drop_exact s.reg hs p
   unfold drop
-  rw [hp, clean_timers, clean_reg]
-  exact ⟨h.1, h.2, rfl, rfl, rfl, rfl, rfl⟩
+  rw [hp, clean_timers, clean_reg, clean_tally]
+  exact ⟨h.1, h.2, rfl, rfl, rfl, rfl, rfl, rfl⟩
 
 /-- every member: after the removal the peer is not among the connected ones -/
 theorem drop_unresolvable (c : Cfg) (s : St) (p : Nat) : (drop c s p).alive.contains p = false := by
@@ -158,11 +176,19 @@ theorem step_armedAlive (c : Cfg) (s : St) (h : ArmedAlive s) (op : Op)
                 exact hal'
             · exact h
   | verdict p w a =>
-    simp only [step, verdict]
+    have hv := verdict_shape s p w a
+    intro x hx
+    simp only [step] at hx ⊢
+    rw [hv.2.1]
+    exact h x (hv.2.2.subset hx)
+  | reconnect p =>
+    simp only [step, reconnect]
     split
-    · intro x hx
-      exact h x (List.mem_filter.mp hx).1
     · exact h
+    · intro x hx
+      have := h x hx
+      simp only [List.contains_cons, Bool.or_eq_true] at this ⊢
+      exact Or.inr this
   | fire =>
     intro x hx
     exact h x (List.mem_filter.mp hx).1
@@ -244,47 +270,217 @@ theorem lateAlong_nil (c : Cfg) (s : St) (h : ArmedAlive s) (ops : List Op)
     | client _ _ _ _ => simpa only [lateAlong] using hnext
     | drop _ => simpa only [lateAlong] using hnext
     | dropEnt _ _ => simpa only [lateAlong] using hnext
+    | reconnect _ => simpa only [lateAlong] using hnext
 
 /-! ### reachable states -/
 
-theorem step_sane_clean (s : St) (h : Reg.Sane s.reg) (op : Op) : Reg.Sane (step Cfg.clean s op).reg := by
+/-- every registry entry belongs to a connected peer -/
+def EntriesAlive (s : St) : Prop :=
+  (∀ e ∈ s.reg.subs, s.alive.contains e.peer = true) ∧ (∀ e ∈ s.reg.binds, s.alive.contains e.peer = true)
+
+/-- what holds in every state the repaired stack reaches -/
+structure Reach (s : St) : Prop where
+  sane : Reg.Sane s.reg
+  live : EntriesAlive s
+
+/-- a registry operation creates entries of the calling peer only -/
+theorem reg_step_entries (c : Reg.Cfg) (s : Reg.St) (op : Reg.Op) :
+    (∀ e ∈ (Reg.step c s op).subs, e ∈ s.subs ∨ e.peer = regPeer op) ∧
+    (∀ e ∈ (Reg.step c s op).binds, e ∈ s.binds ∨ e.peer = regPeer op) := by
+  cases op with
+  | bind p ce cf se sf t =>
+    refine ⟨?_, ?_⟩
+    · intro e he
+      simp only [Reg.step] at he
+      rw [(Reg.addBind_shape s p ce cf se sf t).1] at he
+      exact Or.inl he
+    · intro e he
+      simp only [Reg.step] at he
+      rw [Reg.addBind_effect] at he
+      split at he
+      · rcases List.mem_append.mp he with he | he
+        · exact Or.inl he
+        · simp only [List.mem_singleton] at he
+          subst he
+          exact Or.inr rfl
+      · exact Or.inl he
+  | sub p ce cf se sf t =>
+    refine ⟨?_, ?_⟩
+    · intro e he
+      simp only [Reg.step] at he
+      rw [Reg.c08_add_effect] at he
+      split at he
+      · rcases List.mem_append.mp he with he | he
+        · exact Or.inl he
+        · simp only [List.mem_singleton] at he
+          subst he
+          exact Or.inr rfl
+      · exact Or.inl he
+    · intro e he
+      simp only [Reg.step] at he
+      rw [(Reg.addSub_shape s p ce cf se sf t).1] at he
+      exact Or.inl he
+  | unbind p cd ce cf se sf =>
+    have := Reg.delBind_shape c s p cd ce cf se sf
+    exact ⟨fun e he => Or.inl (by simp only [Reg.step] at he; rw [this.2.2.1] at he; exact he),
+      fun e he => Or.inl (this.1.subset he)⟩
+  | unsub p cd ce cf se sf =>
+    have := Reg.delSub_shape c s p cd ce cf se sf
+    exact ⟨fun e he => Or.inl (this.1.subset he),
+      fun e he => Or.inl (by simp only [Reg.step] at he; rw [Reg.binds_unsub] at he; exact he)⟩
+  | drop p => exact ⟨fun e he => Or.inl (List.mem_filter.mp he).1, fun e he => Or.inl (List.mem_filter.mp he).1⟩
+  | dropEnt p ent =>
+    have := Reg.dropEntity_shape c s p ent
+    exact ⟨fun e he => Or.inl (this.1.subset he), fun e he => Or.inl (this.2.1.subset he)⟩
+  | subsPass p ent => exact ⟨fun e he => Or.inl (List.mem_filter.mp he).1, fun e he => Or.inl he⟩
+  | bindsPass p ent => exact ⟨fun e he => Or.inl he, fun e he => Or.inl (List.mem_filter.mp he).1⟩
+
+theorem step_reach_clean (s : St) (h : Reach s) (op : Op) : Reach (step Cfg.clean s op) := by
   cases op with
   | reg op =>
     simp only [step]
     split
-    · exact Reg.step_sane_clean s.reg h op
+    · rename_i hc
+      simp only [Bool.and_eq_true] at hc
+      refine ⟨Reg.step_sane_clean s.reg h.sane op, ?_, ?_⟩
+      · intro e he
+        rcases (reg_step_entries Reg.Cfg.clean s.reg op).1 e he with h1 | h1
+        · exact h.live.1 e h1
+        · rw [h1]; exact hc.2
+      · intro e he
+        rcases (reg_step_entries Reg.Cfg.clean s.reg op).2 e he with h1 | h1
+        · exact h.live.2 e h1
+        · rw [h1]; exact hc.2
     · exact h
   | write p ce cf se sf w sh =>
     simp only [step, write]
     repeat' split
-    all_goals exact h
+    all_goals exact ⟨h.sane, h.live⟩
   | verdict p w a =>
-    simp only [step, verdict]
-    split <;> exact h
-  | fire => exact h
+    have hv := verdict_shape s p w a
+    refine ⟨by simp only [step]; rw [hv.1]; exact h.sane, ?_, ?_⟩
+    · intro e he
+      simp only [step] at he ⊢
+      rw [hv.1] at he
+      rw [hv.2.1]
+      exact h.live.1 e he
+    · intro e he
+      simp only [step] at he ⊢
+      rw [hv.1] at he
+      rw [hv.2.1]
+      exact h.live.2 e he
+  | fire => exact ⟨h.sane, h.live⟩
   | client b p e f =>
     simp only [step, clientAdd]
     repeat' split
-    all_goals exact h
+    all_goals exact ⟨h.sane, h.live⟩
   | drop p =>
     simp only [step, drop]
     split
     · exact h
-    · exact h.of_sublist List.filter_sublist List.filter_sublist rfl
+    · have hx := Reg.c10_drop_exact s.reg h.sane p
+      refine ⟨h.sane.of_sublist List.filter_sublist List.filter_sublist rfl, ?_, ?_⟩
+      · intro e he
+        dsimp only at he ⊢
+        rw [clean_reg, hx.1] at he
+        have hm := List.mem_filter.mp he
+        have hne : e.peer ≠ p := by simpa using hm.2
+        have := h.live.1 e hm.1
+        simp only [List.contains_eq_mem, List.mem_filter, decide_eq_true_eq] at this ⊢
+        exact ⟨this, by simpa using hne⟩
+      · intro e he
+        dsimp only at he ⊢
+        rw [clean_reg, hx.2] at he
+        have hm := List.mem_filter.mp he
+        have hne : e.peer ≠ p := by simpa using hm.2
+        have := h.live.2 e hm.1
+        simp only [List.contains_eq_mem, List.mem_filter, decide_eq_true_eq] at this ⊢
+        exact ⟨this, by simpa using hne⟩
   | dropEnt p e =>
     simp only [step, dropEntity]
     split
     · exact h
     · split
       · exact h
-      · exact Reg.dropEntity_sane_clean s.reg h p e
+      · have hs := Reg.dropEntity_shape Reg.Cfg.clean s.reg p e
+        exact ⟨Reg.dropEntity_sane_clean s.reg h.sane p e,
+          fun x hx => h.live.1 x (hs.1.subset hx), fun x hx => h.live.2 x (hs.2.1.subset hx)⟩
+  | reconnect p =>
+    simp only [step, reconnect]
+    split
+    · exact h
+    · rename_i hp
+      have hp' : s.alive.contains p = false := by simpa using hp
+      refine ⟨⟨?_, ?_⟩, ?_, ?_⟩
+      · intro e he
+        dsimp only at he ⊢
+        have hl := h.live.1 e he
+        have hne : e.peer ≠ p := by intro hc; rw [hc, hp'] at hl; exact Bool.noConfusion hl
+        rw [if_neg hne]
+        exact h.sane.1 e he
+      · intro e he
+        dsimp only at he ⊢
+        have hl := h.live.2 e he
+        have hne : e.peer ≠ p := by intro hc; rw [hc, hp'] at hl; exact Bool.noConfusion hl
+        rw [if_neg hne]
+        exact h.sane.2 e he
+      · intro e he
+        have := h.live.1 e he
+        simp only [List.contains_cons, Bool.or_eq_true] at this ⊢
+        exact Or.inr this
+      · intro e he
+        have := h.live.2 e he
+        simp only [List.contains_cons, Bool.or_eq_true] at this ⊢
+        exact Or.inr this
 
-/-- repaired code: along every history every registry entry refers to an entity its peer currently announces -/
-theorem run_sane_clean (s0 : St) (h : Reg.Sane s0.reg) (ops : List Op) : Reg.Sane (run Cfg.clean s0 ops).reg := by
+/-- repaired code: along every history — reconnections included — every registry entry refers to an entity its peer
+    currently announces and belongs to a connected peer -/
+theorem run_reach_clean (s0 : St) (h : Reach s0) (ops : List Op) : Reach (run Cfg.clean s0 ops) := by
   unfold run
   induction ops generalizing s0 with
   | nil => exact h
-  | cons op ops ih => exact ih _ (step_sane_clean s0 h op)
+  | cons op ops ih => exact ih _ (step_reach_clean s0 h op)
+
+theorem run_sane_clean (s0 : St) (h : Reg.Sane s0.reg) (hl : EntriesAlive s0) (ops : List Op) :
+    Reg.Sane (run Cfg.clean s0 ops).reg :=
+  (run_reach_clean s0 ⟨h, hl⟩ ops).sane
+
+/-! ### a connection that comes back -/
+
+theorem reconnect_fields (s : St) (p : Nat) :
+    (reconnect s p).reg.subs = s.reg.subs ∧ (reconnect s p).reg.binds = s.reg.binds ∧ (reconnect s p).pend = s.pend ∧
+    (reconnect s p).armed = s.armed ∧ (reconnect s p).tally = s.tally ∧ (reconnect s p).csubs = s.csubs ∧
+    (reconnect s p).cbinds = s.cbinds ∧ (reconnect s p).alive.contains p = true := by
+  unfold reconnect
+  split
+  · rename_i h
+    exact ⟨rfl, rfl, rfl, rfl, rfl, rfl, rfl, h⟩
+  · exact ⟨rfl, rfl, rfl, rfl, rfl, rfl, rfl, by simp⟩
+
+theorem filter_ne_eq_nil {α : Type} (l : List α) (f : α → Nat) (p : Nat) :
+    (l.filter (fun x => f x ≠ p)).filter (fun x => f x = p) = [] := by
+  rw [List.filter_filter, List.filter_eq_nil_iff]
+  intro x _
+  by_cases hx : f x = p <;> simp [hx]
+
+/-- repaired code: after the connection of `p` is removed and `p` connects again, nothing of the old connection is
+    there: no subscription, binding, pending approval, timer, approval tally or client-side bookkeeping of `p` -/
+theorem reconnect_fresh (s : St) (hs : Reg.Sane s.reg) (p : Nat) (hp : s.alive.contains p = true) :
+    Reg.subsOf (reconnect (drop Cfg.clean s p) p).reg p = [] ∧ Reg.bindsOf (reconnect (drop Cfg.clean s p) p).reg p = [] ∧
+    (reconnect (drop Cfg.clean s p) p).pend.filter (·.peer = p) = [] ∧
+    (reconnect (drop Cfg.clean s p) p).armed.filter (·.peer = p) = [] ∧
+    (reconnect (drop Cfg.clean s p) p).tally.filter (·.1 = p) = [] ∧
+    (reconnect (drop Cfg.clean s p) p).csubs.filter (·.peer = p) = [] ∧
+    (reconnect (drop Cfg.clean s p) p).cbinds.filter (·.peer = p) = [] ∧
+    (reconnect (drop Cfg.clean s p) p).alive.contains p = true := by
+  have hd := drop_exact s hs p hp
+  have hr := reconnect_fields (drop Cfg.clean s p) p
+  unfold Reg.subsOf Reg.bindsOf
+  rw [hr.1, hr.2.1, hr.2.2.1, hr.2.2.2.1, hr.2.2.2.2.1, hr.2.2.2.2.2.1, hr.2.2.2.2.2.2.1,
+    hd.1, hd.2.1, hd.2.2.1, hd.2.2.2.1, hd.2.2.2.2.1, hd.2.2.2.2.2.1, hd.2.2.2.2.2.2.2]
+  exact ⟨filter_ne_eq_nil s.reg.subs (·.peer) p, filter_ne_eq_nil s.reg.binds (·.peer) p, filter_ne_eq_nil s.pend (·.peer) p,
+    filter_ne_eq_nil s.armed (·.peer) p, filter_ne_eq_nil s.tally (·.1) p, filter_ne_eq_nil s.csubs (·.peer) p,
+    filter_ne_eq_nil s.cbinds (·.peer) p, hr.2.2.2.2.2.2.2⟩
 
 /-! ### witnesses for the code as written -/
 
@@ -307,5 +503,17 @@ theorem entity_keeps_approval_witness :
 theorem drop_leaks_witness :
     let s := run {} w0 [.reg (.bind 2 [1] 1 [1] 1 1), .drop 1]
     Reg.bindsOf s.reg 2 = [] ∧ (write s 2 [1] 1 [1] 1 9 false).2 = "denied" ∧ s.alive = [2] := by decide
+
+/-- a member that keeps the tallies of a removed connection: feature [1]/1 has two callbacks; the first connection's
+    write 7 gets one approval and times out; the connection is removed and comes back; its new write 7 is applied after
+    ONE approval -/
+def w2 : St := { w0 with approval2 := [([1], 1)], tree := wRem 1 }
+theorem tally_inherited_witness :
+    let c : Cfg := { reg := Reg.Cfg.clean, timersSurvive := false, entityKeepsApprovals := false, tallySurvivesDrop := true }
+    let s := run c w2 [.reg (.bind 1 [1] 1 [1] 1 1), .write 1 [1] 1 [1] 1 7 true, .verdict 1 7 true, .fire, .drop 1,
+      .reconnect 1, .reg (.bind 1 [1] 1 [1] 1 1), .write 1 [1] 1 [1] 1 7 true]
+    (verdict s 1 7 true).2 = "applied" ∧
+    (verdict (run Cfg.clean w2 [.reg (.bind 1 [1] 1 [1] 1 1), .write 1 [1] 1 [1] 1 7 true, .verdict 1 7 true, .fire, .drop 1,
+      .reconnect 1, .reg (.bind 1 [1] 1 [1] 1 1), .write 1 [1] 1 [1] 1 7 true]) 1 7 true).2 = "-" := by decide
 
 end Spine.Td
